@@ -3,7 +3,7 @@
    every operation as a list of integers (compared exactly with the
    implementation's state). Model file. *)
 From Coq Require Import QArith Qminmax List Bool Arith ZArith.
-From WSI Require Import Vqip Pow Enc Tank Arc QTank Distrib Kinds TimeArea Leak Boundary Demand Net.
+From WSI Require Import Vqip Pow Enc Tank Arc QTank Distrib Kinds TimeArea Leak Boundary Demand Wtw Net.
 Import ListNotations.
 Open Scope Q_scope.
 
@@ -316,6 +316,38 @@ Fixpoint run_mnode (maxiter : nat) (n : nmnode) (ops : list mop) : list Z :=
       match mnode_step maxiter n o with
       | None => [(-999)%Z]
       | Some n' => enc_mnode n' ++ run_mnode maxiter n' r
+      end
+  end.
+
+(* ---------------- WWTW (Wtw.v) ---------------- *)
+Inductive wop :=
+| WPushCheck (ov : option vqip) | WPushSet (v : vqip) | WCalc | WMake | WPullCheck | WPullSet (q : Q) | WEnd (T : Q)
+| WOverride (p : wparams) (tank_cap : Q).
+Definition nwwtw := wwtw (nb * nb).
+Definition enc_wwtw (w : nwwtw) : list Z :=
+  ev (ww_cur _ w) ++ ev (ww_treated _ w) ++ ev (ww_liquor _ w) ++ ev (ww_liquor_ _ w) ++ ev (ww_solids _ w)
+  ++ enc_tank (ww_tank _ w) ++ enc_star (ww_outs _ w).
+Definition wwtw_step (maxiter : nat) (w : nwwtw) (o : wop) : option (nwwtw * list Z) :=
+  match o with
+  | WPushCheck ov => Some (w, ev (ww_push_check _ w ov))
+  | WPushSet v => let '(w', r) := ww_push_set _ w v in Some (w', ev r)
+  | WCalc => Some (ww_calculate_discharge _ w, [])
+  | WMake => match ww_make_discharge _ nbport maxiter w with None => None | Some w' => Some (w', []) end
+  | WPullCheck => Some (w, ev (ww_pull_check _ w))
+  | WPullSet q => let '(w', r) := ww_pull_set _ w q in Some (w', ev r)
+  | WEnd T =>
+      let w1 := ww_end _ w T in
+      Some (mkWW _ (ww_p _ w1) (ww_cur _ w1) (ww_treated _ w1) (ww_liquor _ w1) (ww_liquor_ _ w1) (ww_solids _ w1) (ww_prev _ w1)
+                 (ww_tank _ w1) (end_star (ww_outs _ w1)), [])
+  | WOverride p tc => Some (ww_override _ w p tc, [])
+  end.
+Fixpoint run_wwtw (maxiter : nat) (w : nwwtw) (ops : list wop) : list Z :=
+  match ops with
+  | [] => []
+  | o :: r =>
+      match wwtw_step maxiter w o with
+      | None => [(-999)%Z]
+      | Some (w', out) => out ++ enc_wwtw w' ++ run_wwtw maxiter w' r
       end
   end.
 
